@@ -148,6 +148,14 @@ def impl(case):
         arr = np.array(rows, dtype=object)
         merged = _merge_columns(arr)
         res = {"merged": [[ord(ch) for ch in str(s)] for s in merged]}
+        # the key of a tuple must be a function of the tuple alone: merge a sample of the rows one at a time
+        # and in small batches and compare with the key they got inside the whole table
+        step = max(1, len(rows) // 150)
+        single = {}
+        for i in range(0, len(rows), step):
+            one = _merge_columns(np.array([rows[i]], dtype=object))
+            single[i] = [ord(ch) for ch in str(one[0])]
+        res["single"] = [[i, v] for i, v in single.items()]
         if kind == "merge_obj":
             res["strs"] = [[str(v) for v in r] for r in arr.astype(str)]
         return res
@@ -236,6 +244,21 @@ def impl(case):
         pb = b._pmf_predict(qX, sensitive_features=qtw)[:, 1]
         res["pmf"] = [float(v) for v in pa]
         res["pmf_twin"] = [float(v) for v in pb]
+        # predict-time batches that contain ONE tuple only must give the same rows as the full batch
+        alone = []
+        for t in sorted(set(tkeys)):
+            idxs = [i for i, (tt, _) in enumerate(q) if tt == t]
+            qsf_t = np.array([list(t)] * len(idxs), dtype=object)
+            if cont == "DataFrame":
+                qsf_t = pd.DataFrame(qsf_t, columns=[f"f{j}" for j in range(qsf_t.shape[1])])
+            elif cont == "list":
+                qsf_t = [list(r) for r in qsf_t]
+            try:
+                pt = a._pmf_predict(qX.iloc[idxs].reset_index(drop=True), sensitive_features=qsf_t)[:, 1]
+                alone += [[i, float(v)] for i, v in zip(idxs, pt)]
+            except Exception as e:  # noqa
+                alone.append([idxs[0], f"{type(e).__name__}"])
+        res["pmf_alone"] = alone
         res["ids"] = None
         return res
     if kind in ("gs", "eg"):
@@ -295,6 +318,13 @@ def compare(case, out, model):
                           "injectivity of the merged key on the implementation", "property"))
                 break
             seen[m] = k
+        for i, v_ in out.get("single", []):
+            if v_ != out["merged"][i]:
+                v.append((f"{PID}/_merge_columns/key/depends-on-the-batch",
+                          f"row {i} {case['rows'][i] if kind == 'merge' else ''} merges to {out['merged'][i]} inside the "
+                          f"table but to {v_} on its own", "the key of a tuple is a function of the tuple alone "
+                          "(fit-time and predict-time batches differ)", "property"))
+                break
         if model is not None and out["merged"] != model["merged"]:
             i = next(i for i, (a, b) in enumerate(zip(out["merged"], model["merged"])) if a != b)
             v.append((f"{PID}/_merge_columns/merged-string/differs-from-model",
@@ -321,6 +351,13 @@ def compare(case, out, model):
                       "rule applied at predict time is not the rule learned for the same tuple",
                       "_pmf_predict equals that of the single-column relabelled twin on every (tuple, score)",
                       "property"))
+    if kind == "to":
+        for i, val in out.get("pmf_alone", []):
+            if isinstance(val, str) or abs(val - out["pmf"][i]) > 1e-12:
+                v.append((f"{PID}/ThresholdOptimizer/pmf/depends-on-the-predict-batch",
+                          f"query row {i}: {out['pmf'][i]} inside the full batch, {val} when its tuple is predicted alone",
+                          "the rule applied to a row depends on its own tuple only", "property"))
+                break
     if kind in ("gs", "eg") and out["n_index"] != 2 * len(set(map(tuple, case["rows"]))):
         v.append((f"{PID}/{kind}/index/size", f"constraint index has {out['n_index']} entries for "
                   f"{len(set(map(tuple, case['rows'])))} distinct tuples", "one +/- pair per distinct tuple",
